@@ -457,7 +457,14 @@ class World:
             if holder["dir"] is None and st == stage and k == key:
                 self.gen += 1
                 dst = os.path.join(self.root, "cache%d" % self.gen)
-                shutil.copytree(self.dir, dst)
+                os.makedirs(dst, exist_ok=True)
+                # file by file: other pool workers may rename / remove their temporary files while
+                # we copy (any per-file combination is a state a kill could leave behind)
+                for n in sorted(os.listdir(self.dir)):
+                    try:
+                        shutil.copy2(os.path.join(self.dir, n), os.path.join(dst, n))
+                    except (FileNotFoundError, OSError):
+                        pass
                 holder["dir"] = dst
         return h, holder
 
